@@ -79,7 +79,7 @@ fn gen_data_complete(ctx: &GenCtx) -> Vec<Value> {
     let mut plans = Vec::new();
     let mut i = 0u64;
     // exhaustive part: all strings over the 3-symbol abstraction up to length 7
-    for n in 0..=7usize {
+    for n in 0..=(if ctx.first_round() { 7usize } else { 0 }) {
         for idx in 0..3usize.pow(n as u32) {
             let mut p = Planner::new(ctx.seed, "c06.enum", i);
             i += 1;
@@ -94,7 +94,7 @@ fn gen_data_complete(ctx: &GenCtx) -> Vec<Value> {
     }
     // payloads whose length sits on / next to the 512-byte and 8 KiB internal buffers, with every kind of ending
     let mut b = 0u64;
-    for len in [510usize, 511, 512, 513, 1023, 1024, 1025, 1535, 1536, 2048, 8191, 8192, 8193] {
+    for len in [510usize, 511, 512, 513, 1023, 1024, 1025, 1535, 1536, 2048, 8191, 8192, 8193].into_iter().filter(|_| ctx.first_round()) {
         for ending in ["\r", "\n", "\r\n", "x", " ", "\r\r", "\n\r"] {
             for rep in 0..2 {
                 let mut p = Planner::new(ctx.seed, "c06.boundary", b);
@@ -133,7 +133,7 @@ fn gen_data_sound(ctx: &GenCtx) -> Vec<Value> {
     // contents one octet short of / exactly on the 512-byte and 8 KiB internal buffers: the
     // extension / truncation mutations then cross the boundary
     let mut b = 0u64;
-    for len in [511usize, 512, 1023, 1024, 8191, 8192] {
+    for len in [511usize, 512, 1023, 1024, 8191, 8192].into_iter().filter(|_| ctx.first_round()) {
         for ending in ["a", "\r", "\n", " "] {
             let mut p = Planner::new(ctx.seed, "c02.boundary", b);
             b += 1;
